@@ -1,4 +1,4 @@
-from . import COMMON_TB
+from .queue_common import QUEUE_TB, QUEUE_ASSUMPTIONS
 
 CONFIG = dict(
     harness="c04",
@@ -8,7 +8,24 @@ CONFIG = dict(
         dict(suffix="-u", comparisons=[dict(name="barrier-spec", code=401, kind="holds", predicate=True)]),
         dict(suffix="-w", comparisons=[dict(name="waker-model", code=402, kind="eq")]),
     ],
-    trusted_base=COMMON_TB,
-    assumptions=[],
-    explanation="",
+    trusted_base=QUEUE_TB + [
+        "the cfg(metrique_verif) WakerDriver (thin wrapper that calls the private WakerTracker::handle_waiting_wakers with given "
+        "capacity / status / count and exposes waiting_wakers.len() and entries_before_wake)",
+    ],
+    assumptions=QUEUE_ASSUMPTIONS + [
+        "`bounded amount of writer progress` is proved as a bound on the number of handle_waiting_wakers calls (drain passes), each of which "
+        "consumed >= 32 entries or saw the ring empty: at most 2*(cap/32+1) passes between request and wake-up, for every producer behaviour "
+        "and every clock; wall-clock bounds are not claimed (a pass ends at the flush-interval deadline)",
+        "a request is `before` an append when its channel send precedes the force_push in the linearisation (the scheduled runs know that "
+        "order; the unscheduled runs only use the requester's own earlier appends)",
+    ],
+    explanation="Theorems (Props/C04.v): the barrier over the observable log (last stream event before a wake-up is a flush, every entry "
+                "appended before the request was handed to the stream before or displaced), the same at the waking step, the counter "
+                "invariant, bounded drain passes (with and without the ring ever becoming empty), no parking while requests are served, "
+                "requests are never dropped, immediate completion after exit, exit completes everything, refinement of the pure "
+                "WakerTracker function by the LTS and its local S1/S2/L1 facts. "
+                "Correspondence: (s) scheduled runs rich in flush requests incl. full rings of 33-100 entries with the 1 us interval, replayed "
+                "through `step` and checked by the barrier / bounded-pass / no-park-while-waiting predicates; wake-ups are observed in log "
+                "order inside stream calls; (u) unscheduled runs: barrier on the requester's own appends, every request completes; "
+                "(w) the real WakerTracker driven call by call (exhaustive short sequences + random long ones) against Queue/Waker.v.",
 )
